@@ -43,12 +43,15 @@ EXPECTED_PROTOCOL = {
 }
 
 
+MINIMAL_SAFE = "/!$&'()*+,;=:@"
+
+
 def quote(sel: bytes, safe: str = "/") -> str:
     return urllib.parse.quote(sel, safe=safe)
 
 
 def render(view: str, selector: bytes, query: typing.Optional[bytes] = None,
-           prequoted: bool = False, minimal_query: bool = False) -> typing.Tuple[bytes, bool]:
+           prequoted: bool = False, minimal_query: bool = False, minimal_path: bool = False) -> typing.Tuple[bytes, bool]:
     """-> (request bytes, tls).  `selector` is the raw selector bytes (starting with
     '/'); URL protocols percent-encode it unless prequoted."""
     family, tls = VIEWS[view]
@@ -63,7 +66,9 @@ def render(view: str, selector: bytes, query: typing.Optional[bytes] = None,
         if query is not None:
             req += b"\t" + query
         return req + b"\t" + form + b"\r\n", tls
-    path = selector.decode("latin-1") if prequoted else quote(selector)
+    # minimal_path: a client that percent-encodes only what RFC 3986 forbids in a path segment (the
+    # sub-delims ! $ & ' ( ) * + , ; = and : @ travel as they are)
+    path = selector.decode("latin-1") if prequoted else quote(selector, safe=MINIMAL_SAFE if minimal_path else "/")
     if family in ("http", "wap"):
         method = "HEAD" if view in ("httphead", "waphead") else "GET"
         if family == "wap" and view != "wapauto":
